@@ -160,4 +160,7 @@ void QXmppPubSubSubAuthorization::serializeForm(QXmppDataForm &form) const
     serializeNullable(form, Type::TextSingleField, NODE, d->node);
     serializeNullable(form, Type::TextSingleField, SUBID, d->subid);
     serializeNullable(form, Type::JidSingleField, SUBSCRIBER_JID, d->subscriberJid);
+
+    // additional (unknown) fields
+    QXmppExtensibleDataFormBase::serializeForm(form);
 }
